@@ -67,19 +67,39 @@ Print Assumptions C19_conf_meaning.
 Theorem C19_confined : forall self, root_ok (fs_root self) -> fs_tmpname self <> DOTDOT -> forall req st,
   match serve self req st with
   | (st', effs, _) => Forall (conf (load_parts (fs_root self)) (abspath self (load_parts (fs_root self)))) effs
-                      /\ frame (parts (load_parts (fs_root self))) (st_fs st) (st_fs st')
+                      /\ Iframe (load_parts (fs_root self)) st st'       (* = frame on the file system /\ observed paths stay under the root *)
   end.
 Proof. exact serve_confined. Qed.
 Print Assumptions C19_confined.
 
-(* ... and over every history of requests and block-wise fetch loops *)
+Theorem C19_frame_meaning : forall root s s', Iframe root s s' ->
+  (forall k, ~ below (parts root) k -> lookup (st_fs s') k = lookup (st_fs s) k) /\ (obs_under root s -> obs_under root s').
+Proof. intros root s s' H. exact H. Qed.
+Print Assumptions C19_frame_meaning.
+
+(* ... and over every history of requests, block-wise fetch loops, requests served while the disk is full (IOneFull) and
+   rounds of the 10-second refresher check_files_for_refreshes (ITick: one stat per observed path, then any set of
+   re-rendered requests), from every state whose observed paths are under the root — in particular the initial state *)
 Theorem C19_confined_histories : forall self items st, root_ok (fs_root self) -> fs_tmpname self <> DOTDOT ->
+  obs_under (load_parts (fs_root self)) st ->
   match run self st items with
   | (st', outs) => Forall (fun o => Forall (conf (load_parts (fs_root self)) (abspath self (load_parts (fs_root self)))) (all_effects o)) outs
                    /\ frame (parts (load_parts (fs_root self))) (st_fs st) (st_fs st')
+                   /\ obs_under (load_parts (fs_root self)) st'
   end.
-Proof. intros self items st H1 H2. exact (run_confined self H1 H2 items st). Qed.
+Proof. intros self items st H1 H2 H3. exact (run_confined self H1 H2 items st H3). Qed.
 Print Assumptions C19_confined_histories.
+
+(* a request that would lead anywhere else — some Uri-Path component is "..", "." or contains a slash — is ANSWERED WITH AN
+   ERROR (code >= 4.00) whatever the method, the other options, the payload and the state, without a single file-system
+   call (not even a stat below the root) and without effect.  (A non-final Block1 block is answered 2.31 Continue by the
+   spool, which does not look at the path; the block that completes the body gets the error.) *)
+Theorem C19_escaping_request_answered_with_error : forall self req st p, In p (opt_uri_path req) ->
+  (~ noslash p \/ p = DOT \/ p = DOTDOT) ->
+  (forall n m s, opt_block1 req = Some (n, m, s) -> m = false) ->
+  match serve self req st with (st', effs, r) => 128 <= rcode r /\ effs = [] /\ st_fs st' = st_fs st end.
+Proof. exact escaping_request_error. Qed.
+Print Assumptions C19_escaping_request_answered_with_error.
 
 (* ================= 3. without write permission — and for every method other than PUT and DELETE — no request modifies
    the file system, and only reading calls are made *)
@@ -89,15 +109,29 @@ Proof. exact serve_readonly. Qed.
 Print Assumptions C19_readonly_without_write.
 
 (* ================= 4. a request answered with an error (4.xx, 5.xx — in particular 4.00 for every rejected path) has no
-   effect: every file-system entry is as before (the temporary file of a failed PUT is removed again) *)
-Theorem C19_error_has_no_effect : forall self, root_ok (fs_root self) -> forall req st, tmp_fresh self req (st_fs st) ->
+   effect: every file-system entry is as before (the temporary file of a PUT whose rename fails is removed again) —
+   PROVIDED writing the body into the temporary file succeeds (fs_disk_full = false).  When that write fails the code
+   leaves the temporary file behind (finding C19:error-with-effect:tempfile-left-after-failed-write, see
+   C19_failed_write_leaves_tempfile and C19_error_has_no_effect_refuted_when_write_fails below) *)
+Theorem C19_error_has_no_effect : forall self, root_ok (fs_root self) -> fs_disk_full self = false ->
+  forall req st, tmp_fresh self req (st_fs st) ->
   match serve self req st with (st', _, r) => 128 <= rcode r -> fs_equiv (st_fs st') (st_fs st) end.
 Proof. exact serve_error_no_effect. Qed.
 Print Assumptions C19_error_has_no_effect.
+(* the defective branch, exactly: disk full, non-empty body, temporary file creatable -> the request fails with
+   OSError(ENOSPC) (answered 5.00) and the file system has gained the (empty) temporary file *)
+Theorem C19_failed_write_leaves_tempfile : forall self req p st,
+  fs_disk_full self = true -> payload req <> [] -> has_nul (parent p) = false ->
+  resolve (st_fs st) (child (parent p) (fs_tmpname self)) = inr (parts (child (parent p) (fs_tmpname self))) ->
+  lookup (st_fs st) (parts (child (parent p) (fs_tmpname self))) = None ->
+  out (store_file self req p) st =
+    (with_fs st (aset (st_fs st) (parts (child (parent p) (fs_tmpname self))) (NFile [])), inl (XOSError ENOSPC)).
+Proof. exact store_file_failed_write. Qed.
+Print Assumptions C19_failed_write_leaves_tempfile.
 
 (* ================= 5. a file fetched block by block, with any block size exponent, is byte-identical to its content *)
 Theorem C19_blockwise_read_exact : forall self req p c szx fuel st,
-  code req = 1 -> opt_observe req = None -> opt_etags req = [] -> parts_eqb (opt_uri_path req) WKC = false ->
+  code req = 1 -> opt_observe req = None -> existsb is_cur (opt_etags req) = false -> parts_eqb (opt_uri_path req) WKC = false ->
   needs_blockwise_assembly req = false ->
   request_to_localpath self req = Ok p -> fs_stat (st_fs st) (load_parts p) = inr (NFile c) ->
   0 <= szx -> (length c <= fuel)%nat ->
@@ -143,8 +177,8 @@ Print Assumptions C19_block1_gap_rejected.
 
 (* ================= non-vacuity and witnesses *)
 Definition ex_root : list (list Z) := [S "/srv/root"].
-Definition ex_self : fileserver := {| fs_root := ex_root; fs_write := true; fs_etag_enabled := true; fs_tmpname := S "tmpabcd1234"; fs_cwd := [S "home"; S "u"] |}.
-Definition ex_rel (root : list Z) : fileserver := {| fs_root := [root]; fs_write := true; fs_etag_enabled := true; fs_tmpname := S "tmpabcd1234"; fs_cwd := [S "home"; S "u"] |}.
+Definition ex_self : fileserver := {| fs_root := ex_root; fs_write := true; fs_etag_enabled := true; fs_tmpname := S "tmpabcd1234"; fs_cwd := [S "home"; S "u"]; fs_disk_full := false |}.
+Definition ex_rel (root : list Z) : fileserver := {| fs_root := [root]; fs_write := true; fs_etag_enabled := true; fs_tmpname := S "tmpabcd1234"; fs_cwd := [S "home"; S "u"]; fs_disk_full := false |}.
 Definition ex_req (m : Z) (path : list (list Z)) : request :=
   {| code := m; opt_uri_path := path; opt_observe := None; opt_etags := []; opt_if_match := []; opt_if_none_match := false; opt_block1 := None; opt_block2 := None; payload := [1; 2; 3] |}.
 Definition ex_blk (path : list (list Z)) (b1 : Z * bool * Z) (body : list Z) : request :=
@@ -221,3 +255,26 @@ Example C19_failed_put_leaves_nothing :
 Proof. vm_compute. repeat split. Qed.
 Example C19_tmp_fresh_nonvacuous : tmp_fresh ex_self (ex_req 3 [S "new"]) ex_fs.
 Proof. intros p H. vm_compute in H. injection H as <-. vm_compute. reflexivity. Qed.
+
+(* round 5 *)
+(* the unconditional "an error response has no effect" is REFUTED by a PUT on a full disk: 5.00 and a new entry *)
+Example C19_error_has_no_effect_refuted_when_write_fails :
+  let '(st', effs, r) := serve (with_full ex_self) (ex_req 3 [S "new"]) ex_st in
+  rcode r = 160 /\ lookup (st_fs st') [S "srv"; S "root"; S "tmpabcd1234"] = Some (NFile [])
+  /\ lookup (st_fs ex_st) [S "srv"; S "root"; S "tmpabcd1234"] = None
+  /\ effs = [EOpenDirW {| anchor := 1; parts := [S "srv"; S "root"] |}; ECreate {| anchor := 1; parts := [S "srv"; S "root"; S "tmpabcd1234"] |}].
+Proof. vm_compute. repeat split. Qed.
+(* escaping requests: every method, with and without write permission, Observe:0, a completing Block1 block *)
+Example C19_escaping_nonvacuous :
+  map (fun r => let '(st', effs, resp) := serve ex_self r ex_st in (rcode resp, effs))
+      [ex_req 1 [S ".."; S "secret"]; ex_req 3 [S "a/b"]; ex_req 4 [S "."]; ex_req 2 [S ".."]; ex_blk [S ".."; S "x"] (0, false, 0) [1]]
+  = [(128, []); (128, []); (128, []); (133, []); (128, [])].
+Proof. vm_compute. reflexivity. Qed.
+(* the refresher: after an Observe:0 GET of a file, a tick stats that file (and only that) *)
+Example C19_tick_nonvacuous :
+  let obsreq := {| code := 1; opt_uri_path := [S "f"]; opt_observe := Some 0; opt_etags := []; opt_if_match := []; opt_if_none_match := false;
+                   opt_block1 := None; opt_block2 := None; payload := [] |} in
+  let '(st', outs) := run ex_self ex_st [IOne obsreq; ITick []; IOne (ex_req 4 [S "f"]); ITick [obsreq]] in
+  map (map (fun o => (rcode (snd o), length (fst o)))) outs = [[(69, 3%nat)]; [(0, 1%nat)]; [(66, 1%nat)]; [(0, 2%nat)]]
+  /\ obs_under (load_parts ex_root) st'.
+Proof. vm_compute. split; [reflexivity|repeat constructor]. Qed.
